@@ -8,7 +8,7 @@ from vf.hw import *
 from migen import *
 from litex.soc.interconnect import stream
 
-C04_NAMES = ("ens.hold", "resp.move", "resp.drain", "resp.fill", "resp.serve", "resp.release")
+C04_NAMES = ("ens.hold", "resp.move", "resp.drain", "resp.fill", "resp.serve", "resp.release", "ens.handover")
 
 def select(h, prop):
     """keep only the obligations belonging to `prop` (C03 data clauses vs C04 handshake/progress clauses)"""
